@@ -2,7 +2,10 @@
 use crate::engine::Suite;
 
 pub fn suites() -> Vec<Suite> {
-    let mut v = vec![super::guards::suite_c10()];
+    let mut v = vec![];
+    if cfg!(feature = "d-spread") {
+        v.push(super::guards::suite_c10());
+    }
     v.extend(sys_suites());
     v
 }
